@@ -2,6 +2,11 @@
 
 package main
 
+import (
+	"github.com/berquerant/crd/input"
+	"github.com/berquerant/crd/input/ast"
+)
+
 // Contracts for govc (contract-based deductive verification, see /verif/DESIGN.md).
 // This file is compiled only with -tags verif and contains no executable code.
 
@@ -158,3 +163,43 @@ type ghostPrinted struct {
 //@   loop 2 invariant forall(i, 0, len(modifiers), modifiers[i] != nil)
 //@   loop 2 invariant forall(i, 0, len(instances), instances[i] != nil)
 //@   loop 2 decreases len(instances) - rangeindex
+
+// ---- text conv: the elements of the tree are converted one by one, in order, by one converter (C05, C10) ----
+
+// ghostConverted: the calls made on a converter, in order (defined by the interface contract below)
+type ghostConverted struct {
+	N    int
+	Elem [1 << 20]ast.ChordOrRest
+	Out  [1 << 20]*input.Instance
+}
+
+//@ define hc(c) ghost(ghostConverted, c)
+//@ iface astconv.Converter.Convert (c, v) returns (r, err)
+//@   modifies ghostConverted, astconv.SyllableChordConverter
+//@   allocs input.Instance, input.Chord, op.Scale, op.ScaleNote, note.Degree, op.Meta, map[string]string, op.BPM, op.DynamicSign, op.Meter, op.Key, []note.Value
+//@   requires c != nil
+//@   ensures err == nil ==> r != nil
+//@   ghostensures hc(c).N == old(hc(c).N) + 1 && hc(c).Elem == store(old(hc(c).Elem), old(hc(c).N), v) && hc(c).Out == store(old(hc(c).Out), old(hc(c).N), r)
+
+// the notation check walks the tree through a goroutine and a channel (not modelled): assumed to have no effect
+//@ func astconv.ASTTypeClassifier.Classify returns (t, err)
+//@   trusted
+//@   pure
+
+// convert: element i of the tree is the (N0+i)-th thing the converter is asked to convert - each element once,
+// in document order, so that a key change carried by an element reaches exactly the elements after it; the
+// instances collected for printing are the converter's answers in that order (loop invariant)
+//@ func textCmdArgs.convert returns (err)
+//@   modifies ghostConverted, astconv.SyllableChordConverter
+//@   allocs []*input.Instance, input.Instance, input.Chord, op.Scale, op.ScaleNote, note.Degree, op.Meta, map[string]string, op.BPM, op.DynamicSign, op.Meter, op.Key, []note.Value, []uint8, astconv.ASTTypeClassifier
+//@   requires args.tree != nil && converter != nil && w != nil
+//@   ensures err == nil ==> hc(converter).N == old(hc(converter).N) + len(args.tree.List)
+//@   ensures err == nil ==> forall(i, 0, len(args.tree.List), hc(converter).Elem[old(hc(converter).N) + i] == args.tree.List[i])
+//@   ensures forall(j, 0, old(hc(converter).N), hc(converter).Elem[j] == old(hc(converter).Elem[j]) && hc(converter).Out[j] == old(hc(converter).Out[j]))
+//@   loop 0 modifies result, ghostConverted, astconv.SyllableChordConverter
+//@   loop 0 allocs input.Instance, input.Chord, op.Scale, op.ScaleNote, note.Degree, op.Meta, map[string]string, op.BPM, op.DynamicSign, op.Meter, op.Key, []note.Value
+//@   loop 0 invariant 0 - 1 <= rangeindex && rangeindex < len(args.tree.List) && len(result) == len(args.tree.List)
+//@   loop 0 invariant hc(converter).N == old(hc(converter).N) + rangeindex + 1
+//@   loop 0 invariant forall(i, 0, rangeindex + 1, hc(converter).Elem[old(hc(converter).N) + i] == args.tree.List[i] && result[i] == hc(converter).Out[old(hc(converter).N) + i])
+//@   loop 0 invariant forall(j, 0, old(hc(converter).N), hc(converter).Elem[j] == old(hc(converter).Elem[j]) && hc(converter).Out[j] == old(hc(converter).Out[j]))
+//@   loop 0 decreases len(args.tree.List) - rangeindex
